@@ -245,7 +245,12 @@ def run(ctx):
             ctx.ob("R16.2", "Exec::setup_communicate.forces-only-stdout", [n for _, n in allset] == ["stdout"] and all(M.contains(Ts_.operand(t["args"][1]), lambda u: u[0] == "agg" and u[1][:3] == ("adt", "popen::Redirection", "Pipe")) for _, t in forced),
                    scf.loc(allset[0][0] if allset else 0), "the only stream setup_communicate configures on its own is stdout := Pipe (setter calls: %s)" % [n for _, n in allset])
             for bb, t in forced:
-                ctx.ob("R16.2", "Exec::setup_communicate.forces-stdout-only-if-both-unset", bool(n_out) and bool(n_err) and dominated_by_edges(scf, bb, n_out) and dominated_by_edges(scf, bb, n_err), scf.loc(bb),
+                # ... decided per configured value as well: with stdout (or stderr) set to anything but None the forcing call is not reached
+                def never_when(field_):
+                    isf = lambda t_: any(M.noref(M.strip(a_)) == ("field", base_, field_) for a_ in M.alts(M.noref(M.strip(t_))))
+                    return all(bb not in M.Explore(scf, assume_fn=lambda t_, v_=v_: v_ if (t_ and isf(t_)) else None).blocks for n_, v_ in REDIR.items() if n_ != "None")
+                by_eval = never_when("stdout") and never_when("stderr")
+                ctx.ob("R16.2", "Exec::setup_communicate.forces-stdout-only-if-both-unset", (bool(n_out) and bool(n_err) and dominated_by_edges(scf, bb, n_out) and dominated_by_edges(scf, bb, n_err)) or by_eval, scf.loc(bb),
                        "self.stdout(Pipe) inside setup_communicate must be dominated by config.stdout == None and config.stderr == None")
 
     # stream_*() adapters pipe exactly the stream they are named after (and hand out that stream's parent end)
@@ -354,6 +359,28 @@ def run(ctx):
         Tf = M.Terms(f)
         en = [bb for bb, t in f.calls() if M.callee_str(t["f"]) == "builder::exec::Exec::ensure_env"]
         mu = f.calls_to(lambda c: M.callee_str(c) == mutator)
+        looped = False
+        if meth == "env_extend" and not mu:
+            # the same edit spelled as a loop: for (k, v) in vars { env.push((k.to_owned(), v.to_owned())) } -- every element, in order
+            pu_ = f.calls_to(lambda c: M.callee_str(c) == "std::vec::Vec::<T, A>::push")
+            lps_ = M.sccs(f)
+            if len(pu_) == 1 and len(lps_) == 1 and pu_[0][0] in lps_[0]:
+                nx_ = [(b_, t_) for b_, t_ in f.calls(lps_[0]) if M.callee_str(t_["f"]).endswith("as std::iter::Iterator>::next")]
+                if len(nx_) == 1:
+                    src_ = M.noref(Tf.operand(nx_[0][1]["args"][0]))
+                    chain_ = []
+                    while src_[0] == "call" and src_[2]:
+                        chain_.append(src_[1].split("::")[-1])
+                        src_ = M.noref(src_[2][0])
+                    item_ = ("call", M.callee_str(nx_[0][1]["f"]), tuple(Tf.operand(a_) for a_ in nx_[0][1]["args"]), nx_[0][0])
+                    pair_ = M.noref(Tf.operand(pu_[0][1]["args"][1]))
+                    TO = ("<std::ffi::OsStr as std::borrow::ToOwned>::to_owned", "std::ffi::OsStr::to_os_string", "std::convert::AsRef::as_ref")
+                    comp_ok = pair_[0] == "agg" and pair_[1] == "tuple" and len(pair_[2]) == 2 and all(
+                        M.noref(M.strip(pair_[2][k_], also=TO)) == M.noref(("field", ("field", ("downcast", item_, "Some"), "0"), str(k_))) for k_ in (0, 1))
+                    whole_ = src_ == ("param", 2, f.local_name(2)) and all(c_ in ("into_iter", "iter") for c_ in chain_)
+                    every_ = not M.sccs(f, removed={pu_[0][0]})
+                    if comp_ok and whole_ and every_:
+                        mu, looped = pu_, True
         ok = len(mu) == 1 and bool(en) and dominated_by_blocks(f, mu[0][0], en)
         if ok:
             tgt = M.noref(M.strip(Tf.operand(mu[0][1]["args"][0])))
@@ -361,10 +388,10 @@ def run(ctx):
         ctx.ob("R16.4", "%s.snapshot-then-%s" % (meth, mutator.split("::")[-1]), ok, f.loc(0), "Exec::%s must call ensure_env before it edits config.env with %s" % (meth, mutator.split("::")[-1]))
         # an *ordered edit*: the one mutation is applied on every path (not only when the name is new / present), and nothing else touches the list —
         # the later of duplicate names wins downstream (format_env), so an in-place overwrite of an earlier entry is silently lost
-        uncond = len(mu) == 1 and all(dominated_by_blocks(f, r_, [mu[0][0]]) for r_ in f.return_blocks())
+        uncond = len(mu) == 1 and (looped or all(dominated_by_blocks(f, r_, [mu[0][0]]) for r_ in f.return_blocks()))
         envf = ("field", ("field", ("param", 1, f.local_name(1)), "config"), "env")
         ACCESS = ("std::option::Option::<T>::as_mut", "std::option::Option::<T>::unwrap", "std::option::Option::<T>::expect", "builder::exec::Exec::ensure_env",
-                  "std::option::Option::<T>::as_deref_mut", "std::option::Option::<T>::get_or_insert_with", mutator)
+                  "std::option::Option::<T>::as_deref_mut", "std::option::Option::<T>::get_or_insert_with", mutator) + (("std::vec::Vec::<T, A>::push",) if looped else ())
         others = sorted({M.callee_str(t_["f"]) for bb_, t_ in f.calls() if not is_panic_call(t_) and M.callee_str(t_["f"]) not in ACCESS
                          and any(M.contains(Tf.operand(a_), lambda u: u == envf) for a_ in t_["args"])})
         ctx.ob("R16.4", "%s.unconditional-single-edit" % meth, uncond and not others, f.loc(mu[0][0] if mu else 0),
@@ -381,7 +408,7 @@ def run(ctx):
     ee = prog.one("builder::exec::Exec::ensure_env")
     Tee = M.Terms(ee)
     st = stores_to_field(ee, "env", "popen::PopenConfig")
-    e = bool_edges(ee, Tee, lambda c: c[0] == "call" and c[1] == "std::option::Option::<T>::is_none" and M.noref(c[2][0]) == ("field", ("field", ("param", 1, ee.local_name(1)), "config"), "env"), True)
+    e = option_none_edges(ee, Tee, lambda x: M.noref(x) == ("field", ("field", ("param", 1, ee.local_name(1)), "config"), "env"))
     ok = len(st) == 1 and dominated_by_edges(ee, st[0][0], e)
     if ok:
         v = Tee.rvalue(st[0][2]["r"])
